@@ -56,6 +56,9 @@ def run_case(seed, tier, rec, st):
     from mashumaro.codecs.basic import BasicDecoder, BasicEncoder
     import mashumaro.codecs.basic as mbasic
     rng = random.Random(seed)
+    if rng.random() < 0.03:
+        common.two_module_generic_case(rng, rec, "cg")
+        return
     fam = Family("c03", future_annotations=rng.random() < 0.15)
     try:
         tg = TypeGen(fam, rng, dc_config_fn=config_fn)
